@@ -143,6 +143,20 @@ func newTarget(kind string) any {
 // target kind.
 func orderSource(r *prng.R, kind string) string {
 	var sb strings.Builder
+	if kind == "dups" {
+		// several named top-level blocks defined more than once each, interleaved
+		keys := [][2]string{{"srv", "a"}, {"srv", "b"}, {"db", "main"}, {"t1", "x"}, {"zone", "eu"}, {"acl", "k"}}
+		var defs [][2]string
+		for _, i := range r.Perm(len(keys))[:r.Range(2, 5)] {
+			for n := r.Range(2, 3); n > 0; n-- {
+				defs = append(defs, keys[i])
+			}
+		}
+		for _, i := range r.Perm(len(defs)) {
+			fmt.Fprintf(&sb, "def %s %q { v = %d }\n", defs[i][0], defs[i][1], r.Range(1, 99))
+		}
+		return sb.String()
+	}
 	if kind == "print" {
 		// block values with several fields reach the output: printed directly, through a
 		// variable, nested in another block value
@@ -250,7 +264,7 @@ func (c16) Gen(seed uint64, idx int, tier string) *Scenario {
 	r := prng.New(seed, "C16", idx)
 	sc := &Scenario{Prop: "C16", Seed: seed, Idx: idx, API: "ParseFile", Name: "f.bcl"}
 	if r.Chance(1, 2) {
-		kind := prng.Pick(r, []string{"ab", "ab-slice", "inner", "inner-slice", "mism", "mism-slice", "tag", "tags", "tags-slice", "print"})
+		kind := prng.Pick(r, []string{"ab", "ab-slice", "inner", "inner-slice", "mism", "mism-slice", "tag", "tags", "tags-slice", "print", "dups"})
 		sc.Class = "order:" + kind
 		sc.SetStr("target", kind)
 		sc.Src = []byte(orderSource(r, kind))
